@@ -115,6 +115,8 @@ pub struct ModSpec {
     /// Module-relative addresses of functions with unusual unwind records: return addresses
     /// and instruction pointers are biased towards them.
     pub hot: Vec<u64>,
+    /// CodeView record is an ELF build id rather than a PDB70 record (Linux / Android modules).
+    pub elf_build_id: bool,
 }
 
 impl ModSpec {
@@ -167,6 +169,8 @@ pub struct World {
     pub dump: Vec<u8>,
     pub total_stack_bytes: u64,
     pub has_proc_limits: bool,
+    /// Every memory region written to the dump: (base address, length).
+    pub regions: Vec<(u64, u64)>,
     pub describe: serde_json::Value,
 }
 
@@ -562,11 +566,18 @@ pub fn gen_world(opts: &WorldOpts) -> World {
             rel: None,
             sym_kind: "none",
             hot: Vec::new(),
+            elf_build_id: false,
         };
         if has_cv {
             let l = crate::common::leaf(&m.debug_file).to_string();
             let symname = if l.to_lowercase().ends_with(".pdb") { format!("{}.sym", &l[..l.len() - 4]) } else { format!("{l}.sym") };
             m.rel = Some(format!("{}/{}/{}", l, m.breakpad_id(), symname));
+        }
+        if has_cv && !opts.need_debug_ids && os.is_linuxish() && chance("dump.mod.elf_build_id", 1, 2) {
+            // (the HTTP configurations keep PDB70 records: their server script is keyed by the
+            // GUID-derived path)
+            m.elf_build_id = true;
+            m.rel = None;
         }
         // what the symbol supply has for it
         let kind = ch("dump.sym.kind", 8);
@@ -642,6 +653,7 @@ pub fn gen_world(opts: &WorldOpts) -> World {
     let mut total_stack_bytes = 0u64;
     let use_mem64 = chance("dump.mem64", 1, 6);
     let mut memories64: Vec<Memory> = Vec::new();
+    let mut regions: Vec<(u64, u64)> = Vec::new();
     for t in 0..nthreads {
         let seed = ch("dump.thread.seed", u32::MAX) as u64;
         let mut rng = Xoshiro::new(seed);
@@ -772,6 +784,7 @@ pub fn gen_world(opts: &WorldOpts) -> World {
             synth = synth.add_memory(memory);
         }
         total_stack_bytes += slen as u64;
+        regions.push((mem_addr, slen as u64));
         threads.push(ThreadSpec {
             id,
             stack_base: mem_addr,
@@ -782,6 +795,16 @@ pub fn gen_world(opts: &WorldOpts) -> World {
             lr: r.lr,
             shape: shape_name,
         });
+    }
+    if adv && !use_mem64 && chance("dump.mem.extra", 1, 4) {
+        // extra regions: overlapping a stack, empty, and far away
+        let t0 = &threads[0];
+        let over = Memory::with_section(Section::with_endian(e).append_repeated(0xAB, 0x30), t0.stack_base.wrapping_add(0x10));
+        let empty = Memory::with_section(Section::with_endian(e), t0.stack_base.wrapping_add(0x4000));
+        let far = Memory::with_section(Section::with_endian(e).append_repeated(0xCD, 0x20), 0x10);
+        synth = synth.add_memory(over).add_memory(empty).add_memory(far);
+        regions.push((t0.stack_base.wrapping_add(0x10), 0x30));
+        regions.push((0x10, 0x20));
     }
     for m in memories64 {
         synth = synth.add_memory64(m);
@@ -794,14 +817,24 @@ pub fn gen_world(opts: &WorldOpts) -> World {
         if m.has_cv {
             let mut pdb = m.debug_file.clone().into_bytes();
             pdb.push(0);
-            let cv = Section::with_endian(e)
-                .D32(md::CvSignature::Pdb70 as u32)
-                .D32(m.guid.0)
-                .D16(m.guid.1)
-                .D16(m.guid.2)
-                .append_bytes(&m.guid.3)
-                .D32(m.age)
-                .append_bytes(&pdb);
+            let cv = if m.elf_build_id {
+                // ELF build id ("BpEL"): a variable-length identifier instead of GUID + age
+                let len = [20usize, 16, 8, 0, 40, 3][(m.age as usize + m.guid.3[7] as usize) % 6];
+                let mut id: Vec<u8> = Vec::new();
+                for k in 0..len {
+                    id.push((m.guid.0 as u8).wrapping_add(k as u8).wrapping_mul(31));
+                }
+                Section::with_endian(e).D32(md::CvSignature::Elf as u32).append_bytes(&id)
+            } else {
+                Section::with_endian(e)
+                    .D32(md::CvSignature::Pdb70 as u32)
+                    .D32(m.guid.0)
+                    .D16(m.guid.1)
+                    .D16(m.guid.2)
+                    .append_bytes(&m.guid.3)
+                    .D32(m.age)
+                    .append_bytes(&pdb)
+            };
             sm = sm.cv_record(&cv);
             synth = synth.add_module(sm).add(name).add(cv);
         } else {
@@ -821,6 +854,12 @@ pub fn gen_world(opts: &WorldOpts) -> World {
             OsKind::Windows => ([0xC000_0005u32, 0x8000_0003, 0xC000_001D, 0xC000_0409, 0xE06D_7363][ch("dump.exc.win", 5) as usize], 0),
             OsKind::Linux | OsKind::Android => ([11u32, 6, 4, 7, 8][ch("dump.exc.linux", 5) as usize], ch("dump.exc.linux.flags", 4)),
             _ => ([1u32, 2, 3, 6, 10][ch("dump.exc.mac", 5) as usize], [1u32, 2, 13, 0x101][ch("dump.exc.mac.flags", 4) as usize]),
+        };
+        // mostly well-known codes; sometimes anything
+        let (code, flags) = if chance("dump.exc.random_code", 1, 5) {
+            (simkit::blob("dump.exc.code_blob", 4).iter().fold(0u32, |a, &b| (a << 8) | b as u32), ch("dump.exc.random_flags", 1 << 16))
+        } else {
+            (code, flags)
         };
         ex.exception_record.exception_code = code;
         ex.exception_record.exception_flags = flags;
@@ -869,6 +908,7 @@ pub fn gen_world(opts: &WorldOpts) -> World {
             let mut code = SNIPPETS[ch("dump.exc.snippet", 15) as usize].to_vec();
             code.extend_from_slice(&simkit::blob("dump.exc.codetail", 15));
             if !use_mem64 {
+                regions.push((t.ip, code.len() as u64));
                 synth = synth.add_memory(Memory::with_section(Section::with_endian(e).append_bytes(&code), t.ip));
             }
         }
@@ -898,7 +938,29 @@ pub fn gen_world(opts: &WorldOpts) -> World {
     }
     if streams & 4 != 0 {
         let mut misc = MiscStream::new(e);
-        misc.process_id = Some(4242);
+        misc.process_id = Some([4242u32, 0, u32::MAX, 1][ch("dump.misc.pid", 4) as usize]);
+        if chance("dump.misc.times", 1, 2) {
+            let t = [1_600_000_000u32, 0, u32::MAX, 0x7fff_ffff, 1][ch("dump.misc.create_time", 5) as usize];
+            misc.process_times = Some(minidump_synth::MiscFieldsProcessTimes {
+                process_create_time: t,
+                process_user_time: [0u32, 5, u32::MAX][ch("dump.misc.user_time", 3) as usize],
+                process_kernel_time: [0u32, 7, u32::MAX][ch("dump.misc.kernel_time", 3) as usize],
+            });
+        }
+        if chance("dump.misc.power", 1, 3) {
+            misc.power_info = Some(minidump_synth::MiscFieldsPowerInfo {
+                processor_max_mhz: 3000,
+                processor_current_mhz: [2500u32, 0, u32::MAX][ch("dump.misc.mhz", 3) as usize],
+                processor_mhz_limit: 3000,
+                processor_max_idle_state: 2,
+                processor_current_idle_state: 1,
+            });
+        }
+        if chance("dump.misc.integrity", 1, 3) {
+            misc.process_integrity_level = Some([0x2000u32, 0, u32::MAX][ch("dump.misc.integrity_level", 3) as usize]);
+            misc.process_execute_flags = Some(ch("dump.misc.exec_flags", 4));
+            misc.protected_process = Some(ch("dump.misc.protected", 2));
+        }
         synth = synth.add_stream(misc);
     }
     if streams & 8 != 0 || flip_stack.is_some() {
@@ -995,6 +1057,20 @@ pub fn gen_world(opts: &WorldOpts) -> World {
     if let Some(tid) = exception_ctx_of {
         patch_exception_context(&mut dump, tid);
     }
+    if os == OsKind::Windows && chance("dump.teb", 1, 2) {
+        // thread environment blocks: inside the thread's own stack, at its very end, or far off
+        let tebs: Vec<u64> = threads
+            .iter()
+            .map(|t| match ch("dump.teb.kind", 5) {
+                0 => t.stack_base,
+                1 => t.stack_base.wrapping_add(t.stack_len as u64).wrapping_sub(8),
+                2 => u64::MAX - 0x20,
+                3 => 0,
+                _ => t.stack_base.wrapping_add(t.stack_len as u64 / 2),
+            })
+            .collect();
+        patch_thread_tebs(&mut dump, &tebs);
+    }
     let describe = json!({
         "arch": arch.name(),
         "os": os.name(),
@@ -1015,6 +1091,7 @@ pub fn gen_world(opts: &WorldOpts) -> World {
         dump,
         total_stack_bytes,
         has_proc_limits,
+        regions,
         describe,
     }
 }
@@ -1131,4 +1208,26 @@ pub fn tiny_dump(width64: bool) -> Vec<u8> {
         .add_memory(stack)
         .finish()
         .expect("tiny dump")
+}
+
+/// Write thread environment block addresses into the thread list (minidump-synth writes 0).
+fn patch_thread_tebs(dump: &mut [u8], tebs: &[u64]) {
+    let (Some(count), Some(dir)) = (rd32(dump, 8), rd32(dump, 12)) else { return };
+    let mut threads_rva = None;
+    for i in 0..count as usize {
+        let e = dir as usize + i * 12;
+        let (Some(ty), Some(rva)) = (rd32(dump, e), rd32(dump, e + 8)) else { return };
+        if ty == 3 {
+            threads_rva = Some(rva as usize);
+        }
+    }
+    let Some(tl) = threads_rva else { return };
+    let Some(n) = rd32(dump, tl) else { return };
+    let be = BIG_ENDIAN.with(|b| b.get());
+    for i in 0..(n as usize).min(tebs.len()) {
+        let at = tl + 4 + i * 48 + 16;
+        if at + 8 <= dump.len() {
+            dump[at..at + 8].copy_from_slice(&if be { tebs[i].to_be_bytes() } else { tebs[i].to_le_bytes() });
+        }
+    }
 }
